@@ -93,100 +93,6 @@ theorem listSuperiors_eq (d : Char) (n : Name) : listSuperiors d n = Spec.superi
 
 theorem isInbox_eq (s : Name) : isInbox s = Spec.isInboxSeg s := rfl
 
-/-- what `canon` does, as a single pass: *every* hierarchy segment that spells INBOX (any case)
-    becomes `INBOX`.  `seg` is the segment read so far, reversed. -/
-def canonAllAux (d : Char) : Name → Name → Name
-  | seg, [] => if Spec.isInboxSeg seg.reverse then ['I', 'N', 'B', 'O', 'X'] else seg.reverse
-  | seg, c :: cs =>
-    if c = d then (if Spec.isInboxSeg seg.reverse then ['I', 'N', 'B', 'O', 'X'] else seg.reverse) ++ d :: canonAllAux d [] cs
-    else canonAllAux d (c :: seg) cs
-
-def canonAll (d : Char) (name : Name) : Name := canonAllAux d [] name
-
-def prependSeg (pre : Name) : List Name → List Name
-  | [] => [pre]
-  | s :: ss => (pre ++ s) :: ss
-
-theorem prependSeg_nil (S : List Name) (h : S ≠ []) : prependSeg [] S = S := by
-  cases S with
-  | nil => exact absurd rfl h
-  | cons s ss => rfl
-
-theorem canonAux_eq (d : Char) (seg cs : Name) :
-    canonAllAux d seg cs =
-      join d ((prependSeg seg.reverse (splitOn d cs)).map fun s => if isInbox s then inboxName else s) := by
-  induction cs generalizing seg with
-  | nil => simp [canonAllAux, splitOn, prependSeg, join, isInbox_eq, inboxName]; rfl
-  | cons c cs ih =>
-    obtain ⟨s, ss, hs⟩ := splitOn_ne_nil d cs
-    by_cases h : c = d
-    · rw [splitOn_cons_eq d c cs h]
-      simp only [canonAllAux, h, if_true, prependSeg, List.append_nil]
-      rw [ih []]
-      rw [hs]
-      simp only [List.reverse_nil, prependSeg, List.nil_append, List.map_cons, join_cons_cons]
-      simp [isInbox_eq, inboxName]; rfl
-    · rw [splitOn_cons_ne d c cs s ss h hs]
-      simp only [canonAllAux, h, if_false]
-      rw [ih (c :: seg), hs]
-      simp [prependSeg]
-
-/-- `canon` rewrites every segment -/
-theorem canon_eq (d : Char) (n : Name) : canon d n = canonAll d n := by
-  simp only [canon, canonAll]
-  rw [canonAux_eq]
-  obtain ⟨s, ss, hs⟩ := splitOn_ne_nil d n
-  rw [hs]; rfl
-
-/-- the all-segments pass, one segment at a time -/
-theorem canonAllAux_unfold (d : Char) (cs seg : Name) :
-    canonAllAux d seg cs =
-      (if Spec.isInboxSeg (seg.reverse ++ cs.takeWhile (· != d)) then ['I', 'N', 'B', 'O', 'X']
-        else seg.reverse ++ cs.takeWhile (· != d)) ++
-      (match cs.dropWhile (· != d) with
-        | [] => []
-        | _ :: r => d :: canonAllAux d [] r) := by
-  induction cs generalizing seg with
-  | nil => simp [canonAllAux]
-  | cons c cs ih =>
-    by_cases h : c = d
-    · simp [canonAllAux, h]
-    · rw [canonAllAux]
-      simp only [h, if_false]
-      rw [ih (c :: seg)]
-      simp [h]
-
-theorem dropWhile_ne_cases (d : Char) (n : Name) :
-    n.dropWhile (· != d) = [] ∨ ∃ r, n.dropWhile (· != d) = d :: r := by
-  induction n with
-  | nil => simp
-  | cons c cs ih =>
-    by_cases h : c = d
-    · right; exact ⟨cs, by simp [h]⟩
-    · simpa [h] using ih
-
-/-- `canon` agrees with the reference spelling (first segment only) -/
-def CanonOK (d : Char) (p : Name) : Prop := canon d p = Spec.canon d p
-
-/-- `CanonOK` says: what follows the first hierarchy segment is left unchanged by `canon`, i.e.
-    no later segment spells INBOX in another letter case than upper. -/
-theorem canonOK_iff (d : Char) (n : Name) :
-    CanonOK d n ↔ canon d ((n.dropWhile (· != d)).drop 1) = (n.dropWhile (· != d)).drop 1 := by
-  simp only [CanonOK, canon_eq, canonAll, Spec.canon]
-  rw [canonAllAux_unfold d n []]
-  simp only [List.reverse_nil, List.nil_append]
-  rcases dropWhile_ne_cases d n with h | ⟨r, h⟩
-  · rw [h]; simp [canonAllAux, Spec.isInboxSeg]
-  · rw [h]
-    simp only [List.drop_succ_cons, List.drop_zero]
-    constructor
-    · intro e
-      have := List.append_cancel_left e
-      simpa using this
-    · intro e; rw [e]; rfl
-
-/-! ### matchRoot -/
-
 theorem headD_splitOn (d : Char) (n : Name) : (splitOn d n).headD [] = n.takeWhile (· != d) := by
   induction n with
   | nil => rfl
@@ -198,6 +104,41 @@ theorem headD_splitOn (d : Char) (n : Name) : (splitOn d n).headD [] = n.takeWhi
       rw [hs] at ih
       simp at ih
       simp [h, ih]
+
+/-- replacing the first segment and joining again = new first segment ++ the rest of the name from
+    its first delimiter on -/
+theorem join_replace_head (d : Char) (n : Name) : ∀ (s : Name) (ss : List Name) (x : Name),
+    splitOn d n = s :: ss → join d (x :: ss) = x ++ n.dropWhile (· != d) := by
+  induction n with
+  | nil =>
+    intro s ss x h
+    simp [splitOn] at h
+    rw [h.2]
+    simp [join]
+  | cons c cs ih =>
+    intro s ss x h
+    obtain ⟨s', ss', hs'⟩ := splitOn_ne_nil d cs
+    by_cases hc : c = d
+    · rw [splitOn_cons_eq d c cs hc, hs'] at h
+      simp at h
+      rw [← h.2, join_cons_cons, ← hs', join_splitOn]
+      simp [hc]
+    · rw [splitOn_cons_ne d c cs s' ss' hc hs'] at h
+      simp at h
+      rw [← h.2, ih s' ss' x hs']
+      simp [hc]
+
+/-- `canon` computes the reference canonical spelling (first hierarchy segment only) -/
+theorem canon_eq (d : Char) (n : Name) : canon d n = Spec.canon d n := by
+  obtain ⟨s, ss, hs⟩ := splitOn_ne_nil d n
+  have hh := headD_splitOn d n
+  rw [hs] at hh
+  simp at hh
+  simp only [canon, Spec.canon, hs]
+  rw [join_replace_head d n s ss _ hs, hh]
+  rfl
+
+/-! ### matchRoot -/
 
 theorem matchRoot_eq (d : Char) (ref : Name) : matchRoot d ref = Spec.root d ref := by
   simp only [matchRoot, Spec.root, headD_splitOn]
